@@ -648,7 +648,15 @@ func (md *Model) defaultMatch(path, name string, ft types.Type, srcN *node, belo
 		}
 	}
 	if (isPtr(ft) && structOf(deref(ft)) != nil && (len(structCands) > 0 || ptrStruct)) || (dstStruct && ptrStruct && len(structCands) == 0) {
-		md.markEitherBelow(path, ft, "E-c pointer-to-struct without fitting candidate")
+		// E-c, narrowed in round 7: the property assigns a field "if and only if" a candidate fits, and exempts
+		// only BY-VALUE struct fields of different struct types (matched member by member). A pointer on either
+		// side is not by-value: no candidate fits, so the field is not assigned. (Descent through pointers is an
+		// upstream TODO; it was classed EITHER before and is judged by the statement's wording now.)
+		if !below {
+			noMatch("no fitting candidate (struct pointer on one side: not matched member by member)")
+			return
+		}
+		md.markEitherBelow(path, ft, "E-c pointer-to-struct without fitting candidate, notation below")
 		return
 	}
 	if dstStruct && len(structCands) == 1 && len(cs) == 1 {
